@@ -72,7 +72,7 @@ func guardedBy1(p *Prog, r *Report, rule string, specs []guardSpec) {
 			if acc.Kind == "load" {
 				// a plain load of a map/slice header is classified by its uses as well; count it as a read
 			}
-			fname := acc.Fn.Name()
+			fname := canonicalName(p, acc.Fn)
 			key := fmt.Sprintf("%s.%s@%s", g.typ, g.field, fname)
 			a := per[key]
 			if a == nil {
@@ -342,6 +342,11 @@ func c18Belief(p *Prog, r *Report) {
 			if !ok {
 				continue
 			}
+			// (reviewed tables are keyed by recorded names: a renamed anchor type and its renamed
+			// fields are known by the names they had)
+			if nt, isNamed := obj.Type().(*types.Named); isNamed {
+				tn = canonTypeName(nt)
+			}
 			if _, ex := excludedFiles[filepath.Base(p.Fset.Position(obj.Pos()).Filename)]; ex {
 				continue
 			}
@@ -390,7 +395,7 @@ func c18Belief(p *Prog, r *Report) {
 					key := tn + "." + f.Name() + "~" + lock.Name()
 					var bad []string
 					for _, acc := range accs {
-						exk := fmt.Sprintf("%s.%s@%s", tn, f.Name(), acc.Fn.Name())
+						exk := fmt.Sprintf("%s.%s@%s", tn, canonFieldName(f), canonicalName(p, acc.Fn))
 						if _, ok := beliefExceptions[exk]; ok {
 							continue
 						}
